@@ -188,7 +188,9 @@ TraceTStart == /\ active /\ HasLine /\ Line.ev = "TStart" /\ TStart /\ Consume /
 \* stage times relative to the pair's start, in the order start, read-header start/finish, read-body start/finish,
 \* handle start/finish, write start/finish, finish; -1 = not recorded, -2 = recorded before this pair's start
 StagesOK(st) ==
-    /\ Len(st) = 10 /\ st[1] >= 0 /\ st[10] >= 0
+    /\ Len(st) = 10
+    /\ IF level = "disabled" THEN \A i \in 1 .. 10 : st[i] = -1       \* tracers run, nothing is recorded
+       ELSE st[1] >= 0 /\ st[10] >= 0
     /\ \A i \in 1 .. 10 : st[i] # -2
     /\ \A p \in {<<2, 3>>, <<4, 5>>, <<6, 7>>, <<8, 9>>} : st[p[1]] >= 0 => st[p[2]] >= 0   \* a started stage is finished
     /\ \A i, j \in 1 .. 10 : (i < j /\ st[i] >= 0 /\ st[j] >= 0) => st[i] <= st[j]
@@ -199,6 +201,12 @@ TraceTFinish ==
     /\ pairReq # 0 => (Line.target = script[pairReq].target /\ Line.method = script[pairReq].method)
     /\ StagesOK(Line.stages)
     /\ (level = "detailed" /\ pairReq # 0 /\ cfg.wfail # pairReq) => \A i \in 1 .. 10 : Line.stages[i] >= 0
+    \* the finish carries this pair's outcome, at every level: no error and no panic for a request that was handled
+    \* and answered (a recovered handler panic is an ordinary 500); nothing of an earlier exchange (the context is
+    \* recycled) in a pair in which not one byte of a request arrived
+    /\ ~Line.panicked
+    /\ (pairReq # 0 /\ cfg.wfail # pairReq /\ ~reqs[pairReq].partial) => ~Line.err
+    /\ (pairReq = 0 /\ sent = rd /\ (out = << >> \/ out[Len(out)].kind # "reject")) => (Line.send = 0 /\ Line.recv = 0 /\ ~Line.err)
     /\ Consume /\ KeepAux
 
 \* between requests (nothing logged): skip the rest of a streamed body, finish the tracer pair, next request.
